@@ -25,7 +25,7 @@ class Case:
     def jobs(self):
         js = ["G " + " ".join(self.settings) + " " + hx(self.text)]
         for (algo, partial, inp, _m) in self.inputs:
-            js.append(f"P {algo} {partial} 64 {hx(inp)}")
+            js.append(f"P {algo} {partial} {getattr(self, 'max_trees', 64)} {hx(inp)}")
         return js
 
     def describe(self, k=None):
@@ -70,8 +70,15 @@ def run_cases(cases, model=True, extra_requests=None):
                 ex = extra_requests(c)
                 rq += ex
                 c.n_extra = len(ex)
-            for (algo, partial, inp, _m), mat in zip(c.inputs, c.matrices):
-                rq.append(f"{'glr' if algo == 'GLR' else 'lr'} {partial} {hx(inp)} #{mat}")
+            c.model_idx = []
+            for k, ((algo, partial, inp, _m), mat) in enumerate(zip(c.inputs, c.matrices)):
+                if c.results[k].startswith("skipped") or c.results[k] == "notable":
+                    continue
+                c.model_idx.append(k)
+                if "@" in algo:
+                    rq.append(f"lr {partial} {hx(inp)} {algo.split('@')[1]} #{mat}")
+                else:
+                    rq.append(f"{'glr' if algo == 'GLR' else 'lr'} {partial} {hx(inp)} #{mat}")
             reqs.append(rq)
             req_cases.append(c)
     if model and reqs:
@@ -79,7 +86,9 @@ def run_cases(cases, model=True, extra_requests=None):
         for c, o in zip(req_cases, outs):
             c.model_load = o[0]
             c.extra = o[1:1 + c.n_extra]
-            c.model = o[1 + c.n_extra:]
+            c.model = ["skipped"] * len(c.inputs)
+            for k, a in zip(c.model_idx, o[1 + c.n_extra:]):
+                c.model[k] = a
     return cases
 
 
@@ -110,10 +119,18 @@ def render_input(rng, g, toks, ws="none"):
         return "".join(chars)
     if ws == "space":
         return " ".join(chars)
+    if ws == "layout" and g.layout in ("comments", "nested"):
+        pool = ["", " ", "\n", " // note\n", "//x\n ", "  "]
+        if g.layout == "nested":
+            pool += ["/* c */", " /* a /* b */ c */ ", "/**/"]
+    else:
+        pool = ["", " ", "  ", "\n", "\t", " \n ", "\r\n", "\u00a0", "\u2003 "]
+        if g.layout is not None:
+            pool = ["", " ", "  ", "\n", "\t", " \n ", "\r\n"]
     out = ""
     for c in chars:
-        out += rng.choice(["", " ", "  ", "\n", "\t", " \n "]) + c
-    out += rng.choice(["", " ", "\n"])
+        out += rng.choice(pool) + c
+    out += rng.choice(pool[:3])
     return out
 
 
@@ -284,3 +301,39 @@ def parse_bnf(text):
 def toks_of_input(g, inp):
     inv = {c: t for t, c in g.terms.items()}
     return [inv[ch] for ch in inp if ch in inv]
+
+
+def finding_cases(prop):
+    """(known, fixed) witness cases of the committed known_findings.json for a property"""
+    from common import load_findings
+    known, fixed = [], []
+    for f in load_findings():
+        if f["property"] != prop or "witness" not in f or "grammar" not in f["witness"]:
+            continue
+        w = f["witness"]
+        try:
+            g = parse_bnf(w["grammar"])
+            toks = toks_of_input(g, w.get("input", ""))
+        except Exception:
+            g, toks = None, []
+        st = w["settings"].split(" ")
+        inputs = [(w.get("algo", st[0]), w.get("partial", "0"), w.get("input", ""), {"toks": toks})]
+        c = Case(w["grammar"], st, inputs, gram=g, tag="finding:" + f["key"])
+        c.finding = f
+        (known if f["status"] == "known" else fixed).append(c)
+    return known, fixed
+
+
+def replay_known(rep, prop, oracle, model=False):
+    """Re-runs every listed known finding's witness: still failing -> KNOWN-FINDING line; the witnesses of
+    fixed findings are returned so that the caller runs them first as ordinary corpus cases."""
+    known, fixed = finding_cases(prop)
+    if known:
+        run_cases(known, model=model)
+        for c in known:
+            bad = oracle(c) if c.dump is not None else []
+            if bad:
+                rep.known_finding(c.finding["key"], c.finding["what"])
+            else:
+                rep.notes.append(f"known finding {c.finding['key']} no longer reproduces on its witness")
+    return fixed
